@@ -22,5 +22,7 @@ for d in seeded/*/; do
   res=MISSED; [ $rc = 1 ] && res=caught; [ $rc = 2 ] && res=TROUBLE
   echo "$name $prop $res rc=$rc violations=$nv $cls" | tee -a $out
   find /verif/replays -name "$prop-*.json" -delete 2>/dev/null
+  # a seeded change may put its temporary files elsewhere (w11-C15: os.TempDir())
+  find /tmp -maxdepth 1 -name 'result.csv.*.tmp' -delete 2>/dev/null
 done
 echo "== $(grep -c ' caught ' $out) caught, $(grep -c ' MISSED ' $out) missed, $(grep -c ' TROUBLE ' $out) trouble, $(grep -c 'DOES-NOT-APPLY' $out) do not apply, $(grep -c ' SUPERSEDED ' $out) superseded"
